@@ -119,7 +119,10 @@ for it in range(N):
     for eager in (False, True):
         try:
             t = bt.Backtest(build(spec, "list" if form == "parent" else form, eager), data, integer_positions=intpos, commissions=fee, progress_bar=False)
+            seen_before = [m.full_name for m in t.strategy.members]      # read once before the run: children created later on first use must still show up
             t.run()
+            def walk_nodes(node): return [node.full_name] + [x for c in node.children.values() for x in walk_nodes(c)]
+            if [m.full_name for m in t.strategy.members] != walk_nodes(t.strategy): fail("members-agree-with-the-structure-after-the-run", eager=eager, members=[m.full_name for m in t.strategy.members][:12], structure=walk_nodes(t.strategy)[:12], before=seen_before[:12])
             runs[eager] = t
         except Exception as e:
             runs[eager] = e
@@ -158,6 +161,18 @@ for it in range(N):
                     if not np.array_equal(col, pr, equal_nan=True): fail("strategy-column-carries-child-index", node=m.full_name, child=sc)
                     evals += 1
     if it < 2: samples.append(dict(spec=repr(spec)[:200], form=form, final=float(tl.strategy.value)))
+# ---- a node handed over as a dict child keeps its own name (the tree works on a renamed copy); a strategy that declared no tickers works on a
+# copy of the caller's frame (columns for sub-strategies attached later never show up in the caller's data)
+tpl_ = Strategy("inner", stack(), children=["a", "b"])
+comp_ = Strategy("comp", stack(), children={"x": tpl_, "y": tpl_})
+evals += 1
+if tpl_.name != "inner" or sorted(comp_.children) != ["x", "y"] or comp_["x"].full_name != "comp>x": fail("dict-children-are-renamed-copies", template=tpl_.name, children=sorted(comp_.children))
+d_own = mkdata(6); cols0 = list(d_own.columns)
+p_ = Strategy("p", stack()); p_.setup(d_own); p_.adjust(10000.0); p_.update(d_own.index[0]); p_.update(d_own.index[1])
+k_ = Strategy("k", stack(), children=["a"], parent=p_); k_.setup_from_parent(); p_.allocate(1000.0, "k"); p_.update(d_own.index[1])
+evals += 1
+if list(d_own.columns) != cols0: fail("caller-frame-gained-columns", columns=list(map(str, d_own.columns)))
+if "k" not in p_._universe.columns: fail("dynamic-sub-strategy-has-a-universe-column", columns=list(map(str, p_._universe.columns)))
 # ---- operations on a child before its first use: a string-declared child behaves like one constructed up front
 for op in ("close", "rebalance-to-zero", "allocate", "transact"):
     outcome = {}
